@@ -40,7 +40,7 @@ func init() {
 			return runRoute(t, p)
 		},
 		Real: append(append([]string(nil), bReal...), "World D runs: internal/peer.RedisPubsubPeers + sharder.DeterministicSharder per node"), Stub: bStub,
-		OwnProbes: []string{"span_forwarded_one_hop", "span_owned_by_entry_node", "owner_agreement_checked_multi_node", "redis_peers", "sharder_after_membership_history", "sharder_same_size_replacement", "sharder_on_redis_peers_after_crash"}})
+		OwnProbes: []string{"span_forwarded_one_hop", "span_owned_by_entry_node", "owner_agreement_checked_multi_node", "redis_peers", "sharder_after_membership_history", "sharder_same_size_replacement", "sharder_on_redis_peers_after_crash", "registration_arrived_while_sharder_started"}})
 	routeGen19 := genRoute("C19")
 	Register(&Check{ID: "C19", World: "B/cluster",
 		// "for any ownership and stress state": a fifth of the runs are the
